@@ -301,6 +301,21 @@ def foreign_sessions(framer):
             out.append((spec, cfg, [[(f9, [f9]), (f1, [f1])], [(w9, [w9]), (f2, [f2])]]))
             if framer != "binary":
                 out.append((spec, cfg, [[(f9 + f1 + w9, [f9, f1, w9])], [(f2, [f2])]]))
+    # contexts hosting 0 or 0xFF let every unit id through the framers' filter: requests for a unit nobody hosts then
+    # reach execute().  The SAME missing unit twice in a row, behind a request to a hosted unit, on one connection: the
+    # second one must be treated exactly like the first (nothing remembered from the failed lookup or the request before)
+    w1 = L.frame(framer, 0x1121, 1, L.pdu_write_reg(5, 0x0A01))
+    m9a = L.frame(framer, 0x1122, 9, L.pdu_write_reg(5, 0x0BAD))
+    m9b = L.frame(framer, 0x1123, 9, L.pdu_write_reg(5, 0x0BAE))
+    r9 = L.frame(framer, 0x1124, 9, L.pdu_read(3, 5, 1))
+    r1 = L.frame(framer, 0x1125, 1, L.pdu_read(3, 5, 1))
+    for units in ([0, 1], [1, 255]):
+        spec = {"single": False, "units": units, "size": 16}
+        for ign in (False, True):
+            cfg = {"broadcast_enable": False, "ignore_missing_slaves": ign}
+            out.append((spec, cfg, [[(w1, [w1]), (m9a, [m9a]), (m9b, [m9b]), (r9, [r9]), (r1, [r1])]]))
+            if framer != "binary":
+                out.append((spec, cfg, [[(w1 + m9a + m9b, [w1, m9a, m9b]), (r9 + r1, [r9, r1])]]))
     return out
 
 
